@@ -36,7 +36,7 @@ M = [
     ("format-version-3", "header.go", "formatVersion = 2", "formatVersion = 3", ["C18"]),
     ("iterator-does-not-clone-value", "iterator.go", "\t\t\tvalue = cloneBytes(value)\n", "", ["C14"]),
     ("get-does-not-clone", "db.go", "\t\t\tretValue = cloneBytes(value)\n", "\t\t\tretValue = value\n", ["C14"]),
-    ("backup-copies-whole-active-segment", "backup.go", "io.CopyN(dstFile, srcFile, srcSize)", "io.Copy(dstFile, srcFile)", ["C12"]),
+    ("backup-copies-whole-active-segment", "backup.go", "\t\t\tif _, err := io.CopyN(dstFile, srcFile, srcSize); err != nil {", "\t\t\t_ = srcSize\n\t\t\tif _, err := io.Copy(dstFile, srcFile); err != nil {", ["C12"]),
     ("count-without-lock", "db.go", "func (db *DB) Count() uint32 {\n\tdb.mu.RLock()\n\tdefer db.mu.RUnlock()\n", "func (db *DB) Count() uint32 {\n", ["C10"]),
     ("sync-without-lock", "db.go", "func (db *DB) Sync() error {\n\tdb.mu.Lock()\n\tdefer db.mu.Unlock()\n", "func (db *DB) Sync() error {\n", ["C10"]),
     ("get-without-lock", "db.go", "\tdb.metrics.Gets.Add(1)\n\tdb.mu.RLock()\n\tdefer db.mu.RUnlock()\n\tvar retValue []byte\n\terr := db.index.get(h, func(sl slot) (bool, error) {\n\t\tif uint16(len(key)) != sl.keySize {\n\t\t\treturn false, nil\n\t\t}\n\t\tslKey, value, err := db.datalog.readKeyValue(sl)\n\t\tif err != nil {\n\t\t\treturn true, err\n\t\t}\n\t\tif bytes.Equal(key, slKey) {\n\t\t\tretValue = cloneBytes(value)",
